@@ -127,6 +127,48 @@ def checkCapQ (s : St) (items : List Item) : String × String :=
     | some (_, qs) => (names.zipIdx).any fun (c, i) => !occB (qs.getD i 2) ((m.2.filter fun x => x.1 == c).length)
   (if diffs.isEmpty then "ok" else "DIFF-" ++ String.intercalate ";" diffs, if bad.isEmpty then "ok" else "FAIL")
 
+/-- Tokens up to the `)` that closes the currently open pattern; `none` when a capture occurs inside. -/
+def closeNoCap : Nat → Nat → List Tok → Bool → Option (List Tok × Bool)
+  | 0, _, _, _ => none
+  | _, _, [], _ => none
+  | fuel + 1, depth, t :: rest, kids =>
+    match t with
+    | .cap _ => none
+    | .rp => if depth = 0 then some (rest, kids) else closeNoCap fuel (depth - 1) rest kids
+    | .lp => closeNoCap fuel (depth + 1) rest true
+    | .lb => closeNoCap fuel (depth + 1) rest true
+    | .rb => closeNoCap fuel (depth - 1) rest kids
+    | .str _ => closeNoCap fuel depth rest true
+    | _ => closeNoCap fuel depth rest kids
+
+/-- Is there a child pattern that has child patterns of its own and carries no capture (inside or on
+itself)?  (`(a (b (c) (d)))`: the matcher must keep the choice of `b` open.) -/
+def uncapturedSubtree (q : String) : Bool :=
+  let toks := (tokenize (q.length + 1) q.toList #[]).toList
+  let rec go : Nat → List Tok → Bool
+    | _, [] => false
+    | depth, .lp :: rest =>
+      (depth ≥ 1 && (match closeNoCap (rest.length + 1) 0 rest false with
+        | some (after, kids) => kids && (match after with | .cap _ :: _ => false | .quant _ :: .cap _ :: _ => false | _ => true)
+        | none => false)) || go (depth + 1) rest
+    | depth, .rp :: rest => go (depth - 1) rest
+    | depth, _ :: rest => go depth rest
+  go 0 toks
+
+/-- Is there a child pattern that has child patterns of its own? -/
+def hasNestedChildPattern (q : String) : Bool :=
+  let toks := (tokenize (q.length + 1) q.toList #[]).toList
+  let rec go : Nat → List Tok → Bool
+    | _, [] => false
+    | depth, .lp :: rest => (depth ≥ 2) || go (depth + 1) rest
+    | depth, .lb :: rest => (depth ≥ 2) || go (depth + 1) rest
+    | depth, .str _ :: rest => (depth ≥ 2) || go depth rest
+    | depth, .under :: rest => (depth ≥ 2) || go depth rest
+    | depth, .rp :: rest => go (depth - 1) rest
+    | depth, .rb :: rest => go (depth - 1) rest
+    | depth, _ :: rest => go depth rest
+  go 0 toks
+
 def runCase (s : St) : String :=
   let tail := s!"compiled={s.compiled.getD false} haserror={s.hasError}"
   match buildVT s.nodes.toList with
@@ -140,16 +182,21 @@ def runCase (s : St) : String :=
       let model := modelMatches vt items
       let impl := s.impls.toList.map fun m => (m.1, canon m.2)
       let (cqCorr, cqJudge) := checkCapQ s items
-      let info := s!"nimpl={impl.length} nmodel={model.length} qfree={!quant} npat={items.length} capq={cqCorr} capqjudge={cqJudge} {tail}"
+      -- statistic only (the property demands completeness for quantifier-free patterns only)
+      let qempty := quant && ((List.range items.length).any fun p => (model.any fun x => x.1 == p) && !(impl.any fun x => x.1 == p))
+      let info := s!"nimpl={impl.length} nmodel={model.length} qfree={!quant} npat={items.length} capq={cqCorr} capqjudge={cqJudge} qempty={qempty} {tail}"
       match s.compiled with
       | some true =>
         if !(impl.all fun x => model.contains x) then
           let bad := impl.filter fun x => !model.contains x
           let partialB := bad.all fun x => model.any fun y => y.1 == x.1 && subBag x.2 y.2
           let wildKids := (s.query.splitOn "(_ ").length > 1
+          let trailing := quant && (s.query.splitOn " .)").length > 1
           let kind := if partialB then "unsound-partial-binding"
-            else if wildKids && ((s.query.splitOn "!").length > 1 || s.hasError) then "unsound-wildroot-test-skipped"
-            else if quant && (s.query.splitOn " .)").length > 1 then "unsound-quantified-trailing-anchor"
+            else if trailing && hasNestedChildPattern s.query then "unsound-quantified-trailing-anchor-nested"
+            else if trailing then "unsound-quantified-trailing-anchor"
+            else if wildKids && (s.query.splitOn "!").length > 1 then "unsound-wildroot-test-skipped"
+            else if wildKids && s.hasError then "unsound-wildroot-error-parent"
             else "unsound"
           s!"{s.id} judge=FAIL {kind} first={repr bad.head!} {info}"
         else if !quant && !soundB impl model then
@@ -158,7 +205,7 @@ def runCase (s : St) : String :=
         else if !quant && !completeB impl model then
           let bad := model.filter fun x => countOf x model > countOf x impl
           let subsumed := bad.all fun x => impl.any fun y => y.1 == x.1 && y != x && subBag x.2 y.2
-          let kind := if subsumed then "incomplete-subsumed" else if anchorAfterNestedWildcard s.query then "incomplete-anchor-after-nested-wildcard" else if anchorAfterAlternation s.query then "incomplete-anchor-after-uncaptured-alternation" else if (s.query.splitOn "(MISSING").length > 1 then "incomplete-missing-uncaptured" else if (s.query.splitOn "(ERROR ").length > 1 then "incomplete-error-children-uncaptured" else if anchorAfterUncapturedSubtree s.query then "incomplete-anchor-after-uncaptured-subtree" else if anchorAfterUncaptured s.query then "incomplete-anchor-uncaptured" else "incomplete"
+          let kind := if subsumed then "incomplete-subsumed" else if (s.query.splitOn "[").length > 1 && (s.query.splitOn "(_ ").length > 1 then "incomplete-wildroot-branch-in-alternation" else if anchorAfterNestedWildcard s.query then "incomplete-anchor-after-nested-wildcard" else if anchorAfterAlternation s.query then "incomplete-anchor-after-uncaptured-alternation" else if uncapturedSubtree s.query then "incomplete-uncaptured-subtree" else if (s.query.splitOn "(MISSING").length > 1 then "incomplete-missing-uncaptured" else if (s.query.splitOn "(ERROR ").length > 1 then "incomplete-error-children-uncaptured" else if anchorAfterUncapturedSubtree s.query then "incomplete-anchor-after-uncaptured-subtree" else if anchorAfterUncaptured s.query then "incomplete-anchor-uncaptured" else "incomplete"
           s!"{s.id} judge=FAIL {kind} first={repr bad.head!} {info}"
         else if cqJudge != "ok" then s!"{s.id} judge=FAIL capture-count-outside-quantifier {info}"
         else s!"{s.id} judge=ok {info}"
